@@ -47,8 +47,11 @@ def rand_entry(r, k, names):
         nm, utf8 = ("f%d/%s.txt" % (k, "".join(r.choice("abcxyz") for _ in range(r.randint(1, 8))))).encode(), False
     elif c < 0.65:
         nm, utf8 = r.choice(["é%d.txt" % k, "日本/%d" % k, "dir %d/ü/" % k]).encode(), True
-    elif c < 0.75:
+    elif c < 0.70:
         nm, utf8 = bytes([r.choice([0x82, 0xe1, 0x9b, 0xff, 0x80, 0xb0])] * r.randint(1, 3)) + b"%d" % k, False   # CP437 high bytes
+    elif c < 0.75:
+        # CP437 bytes that happen to be well-formed UTF-8: without the flag they are still CP437 (2-, 3- and 4-byte sequences)
+        nm, utf8 = r.choice(["é", "ß", "日本", "€", "\U0001F600", "ñandú"]).encode() + b"-%d" % k, False
     elif c < 0.8:
         nm, utf8 = b"flagged-ascii-%d" % k, True                      # a foreign producer may flag an ASCII name
     elif c < 0.85:
@@ -76,7 +79,8 @@ def rand_entry(r, k, names):
     if r.random() < 0.4:
         e["cextra"] = [(r.choice([0x5455, 0x7875, 0xbeef, 0x000a]), rand_bytes(r, r.randint(0, 40))) for _ in range(r.randint(1, 2))]
     if r.random() < 0.3:
-        e["fcomment"] = r.choice([b"file comment", "commentaire é".encode() if utf8 else b"c\x82mment", b"x" * 300])
+        e["fcomment"] = r.choice([b"file comment", "commentaire é".encode() if utf8 else b"c\x82mment", b"x" * 300,
+                                  "commentaire é (no flag: CP437)".encode()])
     sysid = r.choice([3, 3, 3, 0, 0, 7, 10])
     e["system"] = sysid
     if sysid == 3:
